@@ -147,6 +147,74 @@ def check_layout(lay, variation, param, isar=False):
         shutil.rmtree(root, ignore_errors=True)
 
 
+def check_twins(lay_a, lay_b, order):
+    """Two independent schemas in two directories, each with its own 'types.prophy' (same spelling, different
+    content): compiling both main files in one run must give what compiling each alone gives."""
+    root = pyh.fresh_dir('c20t')
+    try:
+        mains = []
+        for tag, lay in (('a', lay_a), ('b', lay_b)):
+            d = os.path.join(root, tag)
+            os.makedirs(d)
+            lay.stems = ['types', 'm' + tag]
+            lay.arrangement = 'flat'
+            for i in range(lay.nfiles):
+                with open(os.path.join(d, lay.stem(i) + '.prophy'), 'w') as f:
+                    f.write(lay.text(i))
+            mains.append(os.path.join(d, 'm%s.prophy' % tag))
+        outs = {}
+        for label, files in (('a_alone', [mains[0]]), ('b_alone', [mains[1]]),
+                             ('together', [mains[i] for i in order])):
+            o = os.path.join(root, 'out_' + label)
+            os.makedirs(o)
+            rc, err = run_sub(out_args(o) + files, root, 0)
+            if rc != 0:
+                if label != 'together':
+                    return 'skip'
+                return ("compiling two independent inputs together failed although each compiles alone: %s" % err[-300:],
+                        {'a': lay_a.describe(), 'b': lay_b.describe(), 'order': list(order)})
+            outs[label] = snapshot_dir(o)
+        for label, stem in (('a_alone', 'ma'), ('b_alone', 'mb')):
+            bad = diff_outputs(outs[label], outs['together'], {stem})
+            if bad:
+                return ("generated file %s differs when its input is compiled together with an independent input" % bad,
+                        {'a': lay_a.describe(), 'b': lay_b.describe(), 'order': list(order), 'file': bad,
+                         'alone': outs[label].get(bad, b'').decode(errors='replace')[:2000],
+                         'together': outs['together'].get(bad, b'').decode(errors='replace')[:2000]})
+        return None
+    finally:
+        shutil.rmtree(root, ignore_errors=True)
+
+
+@st.composite
+def twin_cases(draw, opts):
+    lays = []
+    for _ in range(2):
+        for _try in range(4):
+            lay = draw(multifile.layouts(opts, min_files=2, max_files=2))
+            if lay.nfiles == 2 and lay.includes[1] == [0]:
+                break
+        lays.append(lay)
+    order = draw(st.permutations([0, 1]))
+    return lays[0], lays[1], list(order)
+
+
+def twin_body(case, stats):
+    lay_a, lay_b, order = case
+    if not (lay_a.nfiles == 2 and lay_b.nfiles == 2 and lay_a.includes[1] == [0] and lay_b.includes[1] == [0]):
+        stats.notes['twin_unusable'] += 1
+        return
+    res = check_twins(lay_a, lay_b, order)
+    if res == 'skip':
+        stats.notes['baseline_refused'] += 1
+        return
+    stats.case((lay_a.text(0), lay_a.text(1), lay_b.text(0), lay_b.text(1), tuple(order)), True,
+               ('twin_includes', 'prophy', 'files=4'),
+               sample=lambda: {'variation': 'twin_includes', 'order': order, 'a': lay_a.describe(), 'b': lay_b.describe()})
+    if res:
+        raise Violation(res[0], {'details': res[1]})
+
+
 @st.composite
 def cases(draw, opts):
     isar = draw(st.integers(0, 4)) == 0
@@ -192,7 +260,9 @@ def gen_opts():
 
 def worker(widx, seed, tier, stats):
     n = {'quick': 30, 'thorough': 1500}[tier]
-    runner.run_given(cases(gen_opts()), body, seed, n, stats)
+    runner.run_given(cases(gen_opts()), body, seed, n, stats, shrink=(tier == 'thorough'))
+    if not stats.violations:
+        runner.run_given(twin_cases(gen_opts()), twin_body, seed + 3, max(n // 4, 6), stats, shrink=(tier == 'thorough'))
 
 
 def run(tier, seed):
